@@ -9,7 +9,7 @@ def e1(text, note="Single goroutine histories; trusts the reference model (harne
 CHECKS = {
  "C01": dict(e1("Held on every dump of every seeded history: all cells of all live rows (16 column kinds, up to 3 blocks, 8 capacities, columns created over data) read back bit/byte-exact through Row readers, Txn readers and Row.Any."), ref="DESIGN.md 4/C01"),
  "C02": dict(e1("Held on every rolled-back transaction of the histories (full dump identical, nothing logged, twin collection hands out identical insert offsets), on every own-read inside a transaction and on every in-flight observation from a second goroutine (dump and snapshot+restore), except the recorded finding KF-INFLIGHT-INSERT."), ref="DESIGN.md 4/C02"),
- "C03": dict(e1("Held on every dump: With(index) and Row.Bool(index) equal the predicate evaluated over the values read through the typed readers, on primaries, stream replicas and restored collections, for indexes created before/after the data and dropped at random."), ref="DESIGN.md 4/C03"),
+ "C03": dict(e1("Held on every dump: With(index) and Row.Bool(index) equal the predicate evaluated over the values read through the typed readers, on primaries, stream replicas and restored collections, for indexes created before/after the data and dropped at random; an E3 phase builds indexes while six writers commit and compares every index bit with the predicate at quiescence.", note="Histories are single goroutine, the E3 phase is real parallelism; trusts the reference model and the generator's model boundaries (DESIGN.md 3.3)."), ref="DESIGN.md 4/C03"),
  "C04": dict(e1("Held on every generated filter chain and aggregate: Count/Range/Sum/Avg/Min/Max equal set algebra and direct aggregation over the dumped rows and values."), ref="DESIGN.md 4/C04"),
  "C05": dict(engine="E4 codec round-trip monitor", cat="exploration", ref="DESIGN.md 4/C05",
    technique="runtime monitoring: generated op sequences executed on the real commit.Buffer/Reader/Commit/Log (checkptr build), decoded output compared with the generated list",
@@ -20,20 +20,20 @@ CHECKS = {
    text="Held on every enumerated interleaving of the scripted multi-writer scenarios and on every seeded single-writer history: replicas fed the emitted commits (channel clone and serialized log) equal the primary at quiescence.",
    note="E2 parks tasks only at lock-free hook points; trusts the dump comparison and that emission order = order of Append calls."),
  "C07": dict(e1("Held on every snapshot->restore cycle of the histories: dump(restored) == dump(original) incl. indexes, sorted order, key lookups and counts, for same and different capacity, and the history continues on the restored collection under the value/live/key oracles."), ref="DESIGN.md 4/C07"),
- "C08": dict(engine=E2, cat="exploration", ref="DESIGN.md 4/C08",
-   technique="runtime monitoring: controlled scheduling of a real Snapshot beside real writers at the hooks of both protocols; restored state checked per block against the fold of the recorded apply order (prefix-state oracle)",
+ "C08": dict(engine=E2+" + "+E3, cat="exploration", ref="DESIGN.md 4/C08",
+   technique="runtime monitoring: controlled scheduling of a real Snapshot beside real writers at the hooks of both protocols, and snapshot loops beside parallel writers; restored state checked per block against the fold of the recorded apply order (prefix-state oracle)",
    text="Held on every executed interleaving: each restored block equals a prefix state S_b[k] with k between the acknowledged-before-call and applied-before-return bounds; Snapshot never failed; only the recorded finding KF-INFLIGHT-INSERT was tolerated by exact signature.",
    note="E2 parks tasks only at lock-free hook points; apply order per block is taken from the logger (called inside the latch)."),
- "C09": dict(engine=E2, cat="exploration", ref="DESIGN.md 4/C09",
-   technique="runtime monitoring: controlled scheduling of concurrent merging writers; final values compared with the fold of the deltas in the recorded per-block apply order; replicas checked for the rewritten absolute values",
+ "C09": dict(engine=E2+" + "+E3, cat="exploration", ref="DESIGN.md 4/C09",
+   technique="runtime monitoring: controlled scheduling of concurrent merging writers; final values compared with the fold of the deltas in the recorded per-block apply order; replicas checked for the rewritten absolute values; under real parallelism, recorded per-row histories of merge/put/read checked for linearizability (porcupine) and the fold oracle over thousands of commits",
    text="Held on every executed interleaving: additive, order-sensitive (v*3+d) and concatenating merges end at the fold of all committed deltas in apply order, each exactly once.",
    note="E2 parks tasks only at lock-free hook points."),
  "C10": dict(engine=E3, cat="exploration", ref="DESIGN.md 4/C10",
    technique="runtime monitoring under real parallelism (race-detector build and plain build, micro-delays injected at commit hooks incl. inside the latch): per-row multi-column tag invariant asserted inside reader callbacks",
    text="Held on every reader callback of every round (millions per run, about half of them overlapping a commit on the same block as counted at the hooks): the six redundant columns of the row always carried one committed tag, never a rolled-back one.",
    note="Schedules are whatever 16 cores and the injected delays produce; nothing is enumerated."),
- "C11": dict(e1("Held on every insert of every history (offset free in the model and not reserved in the same transaction), on every dump (Range/Count/Txn.Count equal the live set; cells of reused offsets carry only what the insert stored), except the recorded finding KF-WRITE-THEN-DELETE-ORPHAN (directed probe)."), ref="DESIGN.md 4/C11"),
- "C12": dict(e1("Held on every key operation (return value vs the model's key table at issue time) and every dump grouped by key; two-transaction creating races are enumerated under the controlled scheduler at the key.afterCheck hook - the recorded finding KF-KEY-CHECK-THEN-ACT is attributed only when two creating operations both succeeded."), ref="DESIGN.md 4/C12"),
+ "C11": dict(e1("Held on every insert of every history (offset free in the model and not reserved in the same transaction), on every dump (Range/Count/Txn.Count equal the live set; cells of reused offsets carry only what the insert stored), except the recorded finding KF-WRITE-THEN-DELETE-ORPHAN (directed probe); an E3 phase runs 16 inserting/deleting workers with an ownership table (collision = occupied entry), read-back of own rows and a census at quiescence.", note="Histories are single goroutine (with interloper transactions between operations), the E3 phase is real parallelism; trusts the reference model and the generator's model boundaries (DESIGN.md 3.3)."), ref="DESIGN.md 4/C11"),
+ "C12": dict(e1("Held on every key operation (return value vs the model's key table at issue time) and every dump grouped by key; two-transaction creating races are enumerated under the controlled scheduler at the key.afterCheck hook - the recorded finding KF-KEY-CHECK-THEN-ACT is attributed only when two creating operations both succeeded; an E3 phase runs 12 workers on disjoint key sets against one key table and checks every return value against the worker's own map.", note="Histories are single goroutine, E2/E3 phases add schedules; trusts the reference model and the generator's model boundaries (DESIGN.md 3.3)."), ref="DESIGN.md 4/C12"),
  "C13": dict(engine="E5 crash-point enumerator", cat="fault_enumeration", ref="DESIGN.md 4/C13",
    technique="runtime fault enumeration: every truncation offset (thorough) / all frame and commit boundaries +-2 plus seeded offsets (quick) of real snapshot and log streams restored by the real code under recover() and a watchdog; result compared with explicitly constructed allowed states",
    text="Held on every prefix tried: error or a state at a commit boundary (complete state part + prefix of logged commits) / whole blocks of the state part; no panic, no hang, no partial commit delivered by Log.Range.",
